@@ -232,6 +232,8 @@ class Sym(Interp):
                 continue
             if root is not None and f.root != root:
                 continue
+            if kind == "attrstore" and isinstance(getattr(f, "obj", None), tuple) and f.obj[:1] == ("obj",) and len(f.obj) == 3 and f.obj[2] != "self":
+                continue        # attributes of an object the analysed code created itself (working state of a private class) are locals, not the model's
             if all(getattr(f, k, None) == v for k, v in kw.items()):
                 out.append(f)
         return out
